@@ -340,7 +340,8 @@ def finding_matches(entry: dict, viol: dict) -> bool:
     try:
         return bool(eval(cond, {"__builtins__": {"abs": abs, "min": min, "max": max, "len": len,
                                                  "any": any, "all": all, "set": set,
-                                                 "tuple": tuple, "sorted": sorted}},
+                                                 "tuple": tuple, "sorted": sorted, "zip": zip, "int": int,
+                                                 "float": float}},
                          dict(viol.get("input", {}))))
     except Exception:  # noqa: BLE001
         return False
